@@ -11,7 +11,7 @@ ID = "C17"
 RULE = (
     "case = feature file assembled from a grammar (languagesystem statements, class definitions, named lookups, GSUB features incl. lookupflag / mark filtering, "
     "hand-written kern / mark / mkmk / curs / abvm / blwm blocks with the '# Automatic Code' marker at the top, middle, bottom, alone, directly before the single last rule, "
-    "mis-cased or absent, comments, optional table GDEF) on a fixed font that gives every writer work (Latin, Arabic, Devanagari glyphs with top/bottom/cursive anchors, "
+    "mis-cased or absent, comments, optional table GDEF with glyph classes and/or ligature carets by position / by index) on a fixed font that gives every writer work (Latin, Arabic, Devanagari glyphs with top/bottom/cursive anchors, "
     "kerning) x writer list (default | lib-specified | explicit with ellipsis | append mode | explicit list with a harness-defined GSUB writer placed last) x {ufoLib2, defcon}; "
     "oracle = debug feature file parsed back with feaLib: the user's non-comment statements form a subsequence of the output (same block path, kind and text); GSUB bytes "
     "identical with writers on and off; a hand-written feature without marker is neither duplicated nor changed in GPOS; with a marker the generated statements of that "
@@ -43,7 +43,7 @@ def base_spec():
         if n == "beh-ar":
             g["anchors"] = [{"name": "entry", "x": 500, "y": 0}, {"name": "exit", "x": 0, "y": 0}]
         if n == "f_i":
-            g["anchors"] = [{"name": "top_1", "x": 100, "y": 700}, {"name": "top_2", "x": 300, "y": 700}]
+            g["anchors"] = [{"name": "top_1", "x": 100, "y": 700}, {"name": "top_2", "x": 300, "y": 700}, {"name": "caret_1", "x": 250, "y": 0}]
         if n in ("ka-deva", "kha-deva"):
             g["anchors"] = [{"name": "top", "x": 300, "y": 650}, {"name": "bottom", "x": 300, "y": -20}]
         if n == "anusvara-deva":
@@ -89,7 +89,16 @@ def fea(draw):
         elif bname == "ss01":
             out.append("feature ss01 { sub a by a.alt; } ss01;")
         elif bname == "gdef":
-            out.append("table GDEF { GlyphClassDef [A B V a ka-deva kha-deva], [f_i], [acutecomb gravecomb anusvara-deva nukta-deva], ; } GDEF;")
+            gd = draw(st.sampled_from(["classes", "classes", "classes+bypos", "byindex", "bypos", "classes+byindex"]))
+            body = []
+            if "classes" in gd:
+                body.append("GlyphClassDef [A B V a ka-deva kha-deva], [f_i], [acutecomb gravecomb anusvara-deva nukta-deva], ;")
+            if "bypos" in gd:
+                body.append("LigatureCaretByPos f_i 240;")
+            if "byindex" in gd:
+                body.append("LigatureCaretByIndex f_i 1;")
+            out.append("table GDEF { %s } GDEF;" % " ".join(body))
+            meta["GDEF"] = {"marker": None, "pos": None, "body": body, "kind": gd}
         else:
             rule = RULES[bname]
             if "@UM" in " ".join(rule) and "markClass acutecomb <anchor 0 1> @UM;" not in out:
@@ -258,6 +267,24 @@ def run_case(case, ctx):
     appendmode = mode == "append"
     nontriv = False
     for tag, b in case["blocks"].items():
+        if tag == "GDEF":
+            # a hand-written GDEF table: what it defines (glyph classes, ligature carets - in either the ByPos or the ByIndex form) is left alone
+            ctx.label("hand-written-GDEF:" + b["kind"])
+            gd0, gd1 = r0["GDEF"].table if "GDEF" in r0 else None, r1["GDEF"].table if "GDEF" in r1 else None
+
+            def carets(gd):
+                if gd is None or gd.LigCaretList is None:
+                    return None
+                return [(g, [(cv.Format, getattr(cv, "Coordinate", None), getattr(cv, "CaretValuePoint", None)) for cv in lg.CaretValue]) for g, lg in zip(gd.LigCaretList.Coverage.glyphs, gd.LigCaretList.LigGlyph)]
+
+            if "by" in b["kind"] and carets(gd0) != carets(gd1):
+                raise Violation("ligature carets of a hand-written GDEF table were changed or duplicated by the automatic writers", kind=b["kind"], without_writers=carets(gd0), with_writers=carets(gd1), writers=mode)
+            if "classes" in b["kind"] and (gd0.GlyphClassDef.classDefs if gd0 is not None and gd0.GlyphClassDef else None) != (gd1.GlyphClassDef.classDefs if gd1 is not None and gd1.GlyphClassDef else None):
+                raise Violation("glyph classes of a hand-written GDEF table were changed by the automatic writers", writers=mode)
+            if len(re.findall(r"table GDEF \{", s.getvalue())) != 1:
+                raise Violation("hand-written GDEF table was duplicated", blocks=len(re.findall(r"table GDEF \{", s.getvalue())))
+            nontriv = nontriv or "by" in b["kind"]
+            continue
         is_marker = b["marker"] is not None and MARKER_RE.match(b["marker"])
         nuser_blocks = sum(1 for p, k, t_ in user if False) or len(re.findall(r"feature %s \{" % tag, text))
         out_blocks = len(re.findall(r"feature %s \{" % tag, s.getvalue()))
